@@ -95,30 +95,26 @@ fn check(ka: usize, kb: usize) {
         }
         Solution::Ambig(Guidance::Unknown) => {}
     }
-    // idempotence
-    assert!(a.clone().combine(a.clone(), I) == a);
+    if ka == kb {
+        // idempotence
+        assert!(a.clone().combine(a.clone(), I) == a, "C17: combine(a, a) != a");
+    }
 }
 
-fn row(ka: usize) {
-    let mut kb = 0;
-    while kb < N_KINDS {
-        arena_reset();
-        check(ka, kb);
-        kb += 1;
-    }
+fn pair(ka: usize, kb: usize) {
+    check(ka, kb);
     cover!(true);
 }
 
-vharness!(c13_q_combine_unique_trivial, 10, { row(0) });
-vharness!(c13_q_combine_unique_constrained, 10, { row(1) });
-vharness!(c13_q_combine_unique_ground, 10, { row(2) });
-vharness!(c13_q_combine_definite_identity, 10, { row(3) });
-vharness!(c13_q_combine_definite_ground, 10, { row(4) });
-vharness!(c13_q_combine_suggested_ground, 10, { row(5) });
-vharness!(c13_t_combine_suggested_identity, 10, { row(6) });
-vharness!(c13_q_combine_unknown, 10, { row(7) });
+macro_rules! pairs {
+    ($($name:ident: $a:expr, $b:expr;)*) => {$(
+        vharness!($name, 6, { pair($a, $b) });
+    )*};
+}
+include!("c13_pairs.rs");
+
 // both outcomes of the interesting comparison are reachable
-vharness!(c13_q_combine_witness, 10, {
+vharness!(c13_q_combine_witness, 6, {
     let a = mk(4);
     let b = mk(4);
     let ab = a.combine(b, I);
